@@ -16,12 +16,15 @@ def claim(pid, technique, text, note, ref):
 
 import importlib  # noqa: E402
 import glob  # noqa: E402
+from .integrated import CLAIMED  # noqa: E402
 
 for _f in sorted(glob.glob(os.path.join(VERIF, "vf", "checks", "c[0-9][0-9].py"))):
     _pid = os.path.basename(_f)[:-3].upper()
+    if _pid not in CLAIMED:
+        continue
     _m = importlib.import_module("vf.checks." + _pid.lower())
     _c = getattr(_m, "CLAIM", None)
-    if _c:
+    if _c and _pid in CLAIMED:
         claim(_pid, _c["technique"], _c["text"], _c["note"], _c.get("ref", "DESIGN.md 4/" + _pid))
     elif getattr(_m, "NOT_APPLICABLE", None):
         NOT_APPLICABLE[_pid] = _m.NOT_APPLICABLE
